@@ -559,7 +559,7 @@ def run(chk, replay=None):
                 with open(gen_path, 'w') as f:
                     f.write(text)
         broken = chk.lean(['Lcapy/Props/C06.lean', 'Lcapy/Props/C06Line.lean', 'Lcapy/Props/C06Netlist.lean',
-                           'Lcapy/Props/C06Nested.lean', 'Lcapy/Props/C06Fixed.lean'],
+                           'Lcapy/Props/C06Nested.lean', 'Lcapy/Props/C06Fixed.lean', 'Lcapy/Props/NonVacuityC06.lean'],
                           helper_files=['Lcapy/Proofs/ParserLemmas.lean', 'Lcapy/Proofs/ParserRoundTrip.lean',
                                         'Lcapy/Model/Parser.lean', 'Lcapy/Spec/Netlist.lean',
                                         'Lcapy/Spec/NetlistExec.lean', 'Lcapy/Driver/C06.lean', 'Lcapy/Generated/Grammar.lean'],
